@@ -1561,6 +1561,8 @@ impl Connection {
         // are carefully written in such a way that they do not hold the lock
         // across .await points. Therefore, it should not be too expensive.
         let handler_map = StdMutex::new(ResponseHandlerMap::new());
+        #[cfg(scylla_verif)]
+        verif_seam::router_prefill(&handler_map);
 
         let write_coalescing_delay = config.write_coalescing_delay;
 
@@ -3393,5 +3395,438 @@ mod tests {
         );
 
         let _ = proxy.finish().await;
+    }
+}
+
+// Verification seam (H-CONN-MAP, H-CONN-ROUTER). Compiled only with `--cfg scylla_verif`; purely
+// additive: implements the object-safe traits of `crate::verif::conn` on top of the private items of
+// this module. Nothing here is reachable, or even compiled, in a normal build.
+#[cfg(scylla_verif)]
+mod verif_seam {
+    use super::*;
+    use crate::verif::conn as pubapi;
+    use std::cell::RefCell;
+    use std::rc::Rc;
+
+    type Rx = oneshot::Receiver<Result<TaskResponse, InternalRequestError>>;
+
+    fn to_raw(r: TaskResponse) -> pubapi::RawResponse {
+        pubapi::RawResponse {
+            version: r.params.version,
+            flags: r.params.flags,
+            stream: r.params.stream,
+            opcode: r.opcode as u8,
+            body: r.body.to_vec(),
+        }
+    }
+
+    fn from_raw(r: pubapi::RawResponse) -> Option<TaskResponse> {
+        Some(TaskResponse {
+            params: FrameParams {
+                version: r.version,
+                flags: r.flags,
+                stream: r.stream,
+            },
+            opcode: ResponseOpcode::try_from(r.opcode).ok()?,
+            body: Bytes::from(r.body),
+        })
+    }
+
+    fn to_send_error(e: InternalRequestError) -> pubapi::SendError {
+        let kind = match &e {
+            InternalRequestError::UnableToAllocStreamId => {
+                pubapi::SendErrorKind::UnableToAllocStreamId
+            }
+            InternalRequestError::BrokenConnection(_) => pubapi::SendErrorKind::BrokenConnection,
+            InternalRequestError::CqlRequestSerialization(_) => {
+                pubapi::SendErrorKind::Serialization
+            }
+            _ => pubapi::SendErrorKind::Other,
+        };
+        pubapi::SendError {
+            kind,
+            text: format!("{e:?}"),
+        }
+    }
+
+    fn poll_rx(rx: &mut Option<Rx>) -> pubapi::RxPoll {
+        let Some(r) = rx.as_mut() else {
+            return pubapi::RxPoll::Taken;
+        };
+        match r.try_recv() {
+            Ok(Ok(resp)) => {
+                *rx = None;
+                pubapi::RxPoll::Response(to_raw(resp))
+            }
+            Ok(Err(e)) => {
+                *rx = None;
+                pubapi::RxPoll::Error(to_send_error(e))
+            }
+            Err(oneshot::error::TryRecvError::Empty) => pubapi::RxPoll::Empty,
+            Err(oneshot::error::TryRecvError::Closed) => pubapi::RxPoll::Closed,
+        }
+    }
+
+    struct RxHook(Option<Rx>);
+    impl pubapi::HandlerRxOps for RxHook {
+        fn poll(&mut self) -> pubapi::RxPoll {
+            poll_rx(&mut self.0)
+        }
+    }
+
+    struct TxHook(ResponseHandler);
+    impl pubapi::HandlerTxOps for TxHook {
+        fn request_id(&self) -> u64 {
+            self.0.request_id
+        }
+        fn send_response(self: Box<Self>, response: pubapi::RawResponse) -> bool {
+            let resp = from_raw(response).expect("valid response opcode");
+            self.0.response_sender.send(Ok(resp)).is_ok()
+        }
+        fn send_broken(self: Box<Self>) -> bool {
+            let error: BrokenConnectionError = BrokenConnectionErrorKind::ChannelError.into();
+            self.0.response_sender.send(Err(error.into())).is_ok()
+        }
+    }
+
+    struct Prefilled {
+        entries: Vec<(i16, u64, Option<Rx>)>,
+    }
+    impl pubapi::PrefillOps for Prefilled {
+        fn len(&self) -> usize {
+            self.entries.len()
+        }
+        fn stream(&self, i: usize) -> i16 {
+            self.entries[i].0
+        }
+        fn request_id(&self, i: usize) -> u64 {
+            self.entries[i].1
+        }
+        fn poll(&mut self, i: usize) -> pubapi::RxPoll {
+            poll_rx(&mut self.entries[i].2)
+        }
+    }
+
+    fn prefill_map(map: &mut ResponseHandlerMap, n: usize, first_request_id: u64) -> Prefilled {
+        let mut entries = Vec::with_capacity(n);
+        for i in 0..n {
+            let request_id = first_request_id + i as u64;
+            let (response_sender, rx) = oneshot::channel();
+            match map.allocate(ResponseHandler {
+                response_sender,
+                request_id,
+            }) {
+                Ok(stream) => entries.push((stream, request_id, Some(rx))),
+                Err(_) => break,
+            }
+        }
+        Prefilled { entries }
+    }
+
+    struct MapHook(ResponseHandlerMap);
+
+    impl pubapi::MapOps for MapHook {
+        fn allocate(&mut self, request_id: u64) -> pubapi::AllocOutcome {
+            let (response_sender, rx) = oneshot::channel();
+            let handler = ResponseHandler {
+                response_sender,
+                request_id,
+            };
+            match self.0.allocate(handler) {
+                Ok(stream) => pubapi::AllocOutcome::Stream(stream, Box::new(RxHook(Some(rx)))),
+                Err(h) => pubapi::AllocOutcome::Refused {
+                    returned_request_id: h.request_id,
+                    rx: Box::new(RxHook(Some(rx))),
+                    tx: Box::new(TxHook(h)),
+                },
+            }
+        }
+        fn orphan(&mut self, request_id: u64) {
+            self.0.orphan(request_id)
+        }
+        fn lookup(&mut self, stream_id: i16) -> pubapi::LookupOutcome {
+            match self.0.lookup(stream_id) {
+                HandlerLookupResult::Orphaned => pubapi::LookupOutcome::Orphaned,
+                HandlerLookupResult::Handler(h) => {
+                    pubapi::LookupOutcome::Handler(Box::new(TxHook(h)))
+                }
+                HandlerLookupResult::Missing => pubapi::LookupOutcome::Missing,
+            }
+        }
+        fn into_handlers(self: Box<Self>) -> Vec<(i16, pubapi::HandlerTx)> {
+            let mut v: Vec<(i16, pubapi::HandlerTx)> = self
+                .0
+                .into_handlers()
+                .into_iter()
+                .map(|(s, h)| (s, Box::new(TxHook(h)) as pubapi::HandlerTx))
+                .collect();
+            v.sort_by_key(|(s, _)| *s);
+            v
+        }
+        fn old_orphans_count(&self) -> usize {
+            self.0.old_orphans_count()
+        }
+        fn snapshot(&self, listing_limit: usize, hide_from: u64) -> pubapi::MapSnapshot {
+            let m = &self.0;
+            let total = m.stream_set.used_bitmap.len() * 64;
+            let allocated_count: usize = m
+                .stream_set
+                .used_bitmap
+                .iter()
+                .map(|b| b.count_ones() as usize)
+                .sum();
+            let list = |want_set: bool| -> Vec<i16> {
+                let mut v = Vec::new();
+                for (block_id, block) in m.stream_set.used_bitmap.iter().enumerate() {
+                    if (want_set && *block == 0) || (!want_set && *block == !0) {
+                        continue;
+                    }
+                    for off in 0..64 {
+                        if ((*block >> off) & 1 == 1) == want_set {
+                            v.push((block_id * 64 + off) as i16);
+                        }
+                    }
+                }
+                v
+            };
+            let mut handlers: Vec<(i16, u64)> = m
+                .handlers
+                .iter()
+                .filter(|(_, h)| h.request_id < hide_from)
+                .map(|(s, h)| (*s, h.request_id))
+                .collect();
+            handlers.sort_unstable();
+            let hidden_handlers = m.handlers.len() - handlers.len();
+            let mut request_to_stream: Vec<(u64, i16)> = m
+                .request_to_stream
+                .iter()
+                .filter(|(r, _)| **r < hide_from)
+                .map(|(r, s)| (*r, *s))
+                .collect();
+            request_to_stream.sort_unstable();
+            let hidden_request_to_stream = m.request_to_stream.len() - request_to_stream.len();
+            let mut orphans: Vec<i16> = m.orphanage_tracker.orphans.keys().copied().collect();
+            orphans.sort_unstable();
+            let mut orphans_by_time: Vec<i16> = m
+                .orphanage_tracker
+                .by_orphaning_times
+                .iter()
+                .map(|(_, s)| *s)
+                .collect();
+            orphans_by_time.sort_unstable();
+            pubapi::MapSnapshot {
+                allocated_count,
+                allocated: if allocated_count <= listing_limit {
+                    list(true)
+                } else {
+                    Vec::new()
+                },
+                free: if total - allocated_count <= listing_limit {
+                    list(false)
+                } else {
+                    Vec::new()
+                },
+                handlers,
+                request_to_stream,
+                orphans,
+                orphans_by_time,
+                hidden_handlers,
+                hidden_request_to_stream,
+            }
+        }
+        fn prefill(&mut self, n: usize, first_request_id: u64) -> Box<dyn pubapi::PrefillOps> {
+            Box::new(prefill_map(&mut self.0, n, first_request_id))
+        }
+    }
+
+    // ---- router
+
+    const fn opcode_of(op: u8) -> request::RequestOpcode {
+        match op {
+            0x05 => request::RequestOpcode::Options,
+            0x07 => request::RequestOpcode::Query,
+            0x09 => request::RequestOpcode::Prepare,
+            0x0A => request::RequestOpcode::Execute,
+            0x0B => request::RequestOpcode::Register,
+            0x0D => request::RequestOpcode::Batch,
+            _ => panic!("unsupported raw request opcode"),
+        }
+    }
+
+    struct RawRequest<const OP: u8>(Vec<u8>);
+    impl<const OP: u8> SerializableRequest for RawRequest<OP> {
+        const OPCODE: request::RequestOpcode = opcode_of(OP);
+        fn serialize(
+            &self,
+            buf: &mut Vec<u8>,
+        ) -> Result<(), crate::frame::frame_errors::CqlRequestSerializationError> {
+            buf.extend_from_slice(&self.0);
+            Ok(())
+        }
+    }
+
+    type PrefillSlot = Rc<RefCell<Option<Prefilled>>>;
+
+    thread_local! {
+        // (count, request-id base, where the receivers go): consumed by the next router's first poll
+        static ROUTER_PREFILL: RefCell<Option<(usize, PrefillSlot)>> = const { RefCell::new(None) };
+    }
+
+    /// Called from `Connection::router` right after it created its handler map.
+    pub(super) fn router_prefill(handler_map: &StdMutex<ResponseHandlerMap>) {
+        let Some((n, slot)) = ROUTER_PREFILL.with(|c| c.borrow_mut().take()) else {
+            return;
+        };
+        let mut g = handler_map.try_lock().unwrap();
+        // request ids far above anything the handle's generator reaches
+        let filled = prefill_map(&mut g, n, 1 << 48);
+        *slot.borrow_mut() = Some(filled);
+    }
+
+    struct HandleHook {
+        handle: Arc<RouterHandle>,
+        prefilled: PrefillSlot,
+    }
+
+    impl pubapi::RouterHandleOps for HandleHook {
+        fn send_raw(&self, opcode: u8, body: Vec<u8>) -> pubapi::SendFuture {
+            let h = self.handle.clone();
+            async fn go<const OP: u8>(
+                h: Arc<RouterHandle>,
+                body: Vec<u8>,
+            ) -> Result<pubapi::RawResponse, pubapi::SendError> {
+                let req = RawRequest::<OP>(body);
+                h.send_request(&req, None, false)
+                    .await
+                    .map(to_raw)
+                    .map_err(to_send_error)
+            }
+            match opcode {
+                0x05 => Box::pin(go::<0x05>(h, body)),
+                0x07 => Box::pin(go::<0x07>(h, body)),
+                0x09 => Box::pin(go::<0x09>(h, body)),
+                0x0A => Box::pin(go::<0x0A>(h, body)),
+                0x0B => Box::pin(go::<0x0B>(h, body)),
+                0x0D => Box::pin(go::<0x0D>(h, body)),
+                _ => panic!("unsupported raw request opcode {opcode:#x}"),
+            }
+        }
+        fn trigger_keepalive(&self) {
+            self.handle.keepalive_hint.notify_one();
+        }
+        fn next_request_id(&self) -> u64 {
+            self.handle
+                .request_id_generator
+                .load(std::sync::atomic::Ordering::Relaxed)
+        }
+        fn prefilled(&self, i: usize) -> Option<(i16, pubapi::RxPoll)> {
+            let mut g = self.prefilled.borrow_mut();
+            let p = g.as_mut()?;
+            if i >= p.entries.len() {
+                return None;
+            }
+            let s = p.entries[i].0;
+            Some((s, poll_rx(&mut p.entries[i].2)))
+        }
+        fn clone_handle(&self) -> pubapi::RouterHandle {
+            Box::new(HandleHook {
+                handle: self.handle.clone(),
+                prefilled: self.prefilled.clone(),
+            })
+        }
+    }
+
+    struct ErrorRxHook(Option<ErrorReceiver>);
+    impl pubapi::ErrorRxOps for ErrorRxHook {
+        fn poll(&mut self) -> Result<Option<String>, ()> {
+            let Some(r) = self.0.as_mut() else {
+                return Ok(None);
+            };
+            match r.try_recv() {
+                Ok(e) => {
+                    self.0 = None;
+                    Ok(Some(format!("{e:?}")))
+                }
+                Err(oneshot::error::TryRecvError::Empty) => Ok(None),
+                Err(oneshot::error::TryRecvError::Closed) => Err(()),
+            }
+        }
+    }
+
+    impl Connection {
+        pub(crate) fn verif_new_map() -> Box<dyn pubapi::MapOps> {
+            Box::new(MapHook(ResponseHandlerMap::new()))
+        }
+
+        pub(crate) fn verif_build_router<S>(stream: S, cfg: pubapi::RouterCfg) -> pubapi::RouterParts
+        where
+            S: AsyncRead + AsyncWrite + 'static,
+        {
+            // Mirrors the channel / handle construction of `Connection::new`.
+            let capacity = if cfg.submit_channel_capacity == 0 {
+                1024
+            } else {
+                cfg.submit_channel_capacity
+            };
+            let (sender, receiver) = mpsc::channel(capacity);
+            let (error_sender, error_receiver) = tokio::sync::oneshot::channel();
+            let (orphan_notification_sender, orphan_notification_receiver) =
+                mpsc::unbounded_channel();
+
+            let router_handle = Arc::new(RouterHandle {
+                submit_channel: sender,
+                request_id_generator: AtomicU64::new(0),
+                orphan_notification_sender,
+                keepalive_hint: Notify::new(),
+            });
+
+            let config = HostConnectionConfig {
+                local_ip_address: None,
+                shard_aware_local_port_range: ShardAwarePortRange::EPHEMERAL_PORT_RANGE,
+                compression: None,
+                tcp_socket_options: TcpSocketOptions::default(),
+                timestamp_generator: None,
+                event_sender: None,
+                tls_config: None,
+                connect_timeout: std::time::Duration::from_secs(5),
+                default_consistency: Default::default(),
+                authenticator: None,
+                address_translator: None,
+                write_coalescing_delay: cfg.write_coalescing_delay.clone(),
+                keepalive_interval: cfg.keepalive_interval,
+                keepalive_timeout: cfg.keepalive_timeout,
+                tablet_sender: None,
+                identity: SelfIdentity::default(),
+            };
+
+            let prefilled: PrefillSlot = Rc::new(RefCell::new(None));
+            ROUTER_PREFILL.with(|c| {
+                *c.borrow_mut() = if cfg.prefill > 0 {
+                    Some((cfg.prefill, prefilled.clone()))
+                } else {
+                    None
+                }
+            });
+
+            let node_address = SocketAddr::new(IpAddr::V4(Ipv4Addr::new(127, 0, 0, 1)), 9042);
+            let router = Connection::router(
+                config,
+                stream,
+                receiver,
+                error_sender,
+                orphan_notification_receiver,
+                router_handle.clone(),
+                node_address,
+            );
+
+            pubapi::RouterParts {
+                router: Box::pin(router),
+                handle: Box::new(HandleHook {
+                    handle: router_handle,
+                    prefilled,
+                }),
+                errors: Box::new(ErrorRxHook(Some(error_receiver))),
+            }
+        }
     }
 }
